@@ -16,6 +16,23 @@ From D3 Require Import Base.Ops Base.Vec Base.RVec Base.RVec2 Spec.Convex Model.
 Import ListNotations.
 Local Open Scope R_scope.
 
+(** algebra used below, stated outside the section (the tactic [vsimp] destructs vectors and
+    must not meet section variables) *)
+Lemma vdivs_mulMV (m : M3 R) (d : V3R) (n : R) : vdivs (mulMV m d) n = mulMV m (vdivs d n).
+Proof. vsimp; f_equal; unfold Rdiv; ring. Qed.
+Lemma rigid_add (m : M3 R) (t c v : V3R) : vadd (rigid m t c) (mulMV m v) = rigid m t (vadd c v).
+Proof. unfold rigid. vsimp; f_equal; ring. Qed.
+Lemma rigid_sub_vec (m : M3 R) (t c v : V3R) : vsub (rigid m t c) (mulMV m v) = rigid m t (vsub c v).
+Proof. unfold rigid. vsimp; f_equal; ring. Qed.
+Lemma col2_mulMM (a b : M3 R) : col (mulMM a b) 2 = mulMV a (col b 2).
+Proof. unfold mulMM. vsimp. cbn. f_equal; ring. Qed.
+Lemma mulTV_add (m : M3 R) (a b : V3R) : mulTV m (vadd a b) = vadd (mulTV m a) (mulTV m b).
+Proof. vsimp; f_equal; ring. Qed.
+Lemma to_local_shift (a b w : V3R) : vadd (vneg (vadd a w)) (vadd b w) = vadd (vneg a) b.
+Proof. vsimp; f_equal; ring. Qed.
+Lemma sumsq_is_dot (v : V3R) : sumsq v = dot v v.
+Proof. destruct v. unfold sumsq. vunfold. ring. Qed.
+
 Section Move.
   Variables (Rg : M3 R) (t : V3R).
   Hypothesis HR : is_rotation Rg.
@@ -60,8 +77,7 @@ Section Move.
   Lemma norm_vector_rot (d : V3R) : norm_vector (mulMV Rg d) = mulMV Rg (norm_vector d).
   Proof.
     unfold norm_vector. rewrite is_rotation_norm by auto. rops.
-    destruct (Reqb (norm d) 0); auto.
-    vsimp. f_equal; unfold Rdiv; ring.
+    destruct (Reqb (norm d) 0); auto. apply vdivs_mulMV.
   Qed.
 
   Theorem support_sphere_equivariant (d c : V3R) (r : R) :
@@ -70,7 +86,7 @@ Section Move.
     intros Hd. unfold support_sphere. rewrite is_rotation_norm by auto. rops.
     case_eqb (norm d) 0 E.
     - exfalso. apply Hd. apply norm_zero_iff; auto.
-    - unfold g, rigid. vsimp. f_equal; unfold Rdiv; ring.
+    - unfold g. rewrite vdivs_mulMV, <- mulMV_scale, rigid_add. reflexivity.
   Qed.
 
   (** ** ellipse (axes are rows a0, a1, moved by Rg) *)
@@ -79,15 +95,15 @@ Section Move.
   Proof.
     unfold support_ellipse. rewrite !is_rotation_dot by auto.
     destruct (norm_vector2 _ _) as [u v].
-    unfold g, rigid. rewrite mulMV_add, mulMV_add, !mulMV_scale. vsimp. f_equal; ring.
+    unfold g. rewrite <- !mulMV_scale, <- mulMV_add, rigid_add. reflexivity.
   Qed.
 
   (** ** Margin: inner support point moved, direction rotated *)
   Theorem support_margin_equivariant (inner d : V3R) (m : R) :
     support_margin (g inner) (mulMV Rg d) m = g (support_margin inner d m).
   Proof.
-    unfold support_margin. rewrite norm_vector_rot. unfold g, rigid.
-    rewrite mulMV_add, mulMV_scale. vsimp. f_equal; ring.
+    unfold support_margin. rewrite norm_vector_rot. unfold g.
+    rewrite <- mulMV_scale, rigid_add. reflexivity.
   Qed.
 
   (** ** vertex hulls: argmax of v.d is unchanged because every projection shifts by the
@@ -123,7 +139,7 @@ Section Move.
     unfold convert_box_to_vertices. rewrite map_map. apply map_ext. intros c.
     change (vadd (trans (move T)) (mulMV (rot (move T)) (vmul c size)))
       with (vadd (g (trans T)) (mulMV (mulMM Rg (rot T)) (vmul c size))).
-    rewrite mulMV_mulMM. unfold g, rigid. rewrite mulMV_add. vsimp. f_equal; ring.
+    rewrite mulMV_mulMM. unfold g. apply rigid_add.
   Qed.
   Theorem support_box_collider_equivariant (d : V3R) (T : Pose R) (size : V3R) :
     support_box_collider (mulMV Rg d) (move T) size = option_map g (support_box_collider d T size).
@@ -138,39 +154,33 @@ Section Move.
     unfold mesh_query. rewrite move_local_dir.
     destruct (hill_climb fuel (mulTV (rot T) d) first_idx vs conn shortcuts); auto.
     destruct (nth_error vs i); auto. cbn [option_map fst snd]. do 2 f_equal.
-    rewrite move_trans, move_rot, mulMV_mulMM. unfold g, rigid. rewrite mulMV_add. vsimp. f_equal; ring.
+    rewrite move_trans, move_rot, mulMV_mulMM. unfold g. apply rigid_add.
   Qed.
 
   (** ** centres and first vertices *)
   Theorem center_box_equivariant (T : Pose R) : center_box (move T) = g (center_box T).
   Proof. reflexivity. Qed.
   Lemma col2_move (T : Pose R) : col (rot (move T)) 2 = mulMV Rg (col (rot T) 2).
-  Proof. rewrite move_rot. unfold mulMM. vsimp. cbn. f_equal; ring. Qed.
+  Proof. rewrite move_rot. apply col2_mulMM. Qed.
   Theorem center_cone_equivariant (T : Pose R) (h : R) : center_cone (move T) h = g (center_cone T h).
   Proof.
-    unfold center_cone. rewrite col2_move, move_trans. unfold g, rigid. rewrite mulMV_add, mulMV_scale.
-    vsimp. f_equal; ring.
+    unfold center_cone. rewrite col2_move, move_trans. unfold g. rewrite <- mulMV_scale, rigid_add. reflexivity.
   Qed.
   Theorem first_vertex_capsule_equivariant (T : Pose R) (r h : R) :
     first_vertex_capsule (move T) r h = g (first_vertex_capsule T r h).
   Proof.
-    unfold first_vertex_capsule. rewrite col2_move, move_trans. unfold g, rigid. rewrite mulMV_sub, mulMV_scale.
-    vsimp. f_equal; ring.
+    unfold first_vertex_capsule. rewrite col2_move, move_trans. unfold g. rewrite <- mulMV_scale, rigid_sub_vec.
+    reflexivity.
   Qed.
   (** ** containment predicates (Model/Contain.v) *)
-  Lemma mulTV_add (m : M3 R) (a b : V3R) : mulTV m (vadd a b) = vadd (mulTV m a) (mulTV m b).
-  Proof. vsimp; f_equal; ring. Qed.
   Lemma sumsq_rot (v : V3R) : sumsq (mulMV Rg v) = sumsq v.
-  Proof.
-    replace (sumsq (mulMV Rg v)) with (dot (mulMV Rg v) (mulMV Rg v)) by (vsimp; unfold sumsq; cbn; ring).
-    rewrite is_rotation_dot by auto. vsimp; unfold sumsq; cbn; ring.
-  Qed.
+  Proof. rewrite !sumsq_is_dot. apply is_rotation_dot; auto. Qed.
 
   (** the local coordinates of the moved point in the moved frame are the old ones *)
   Theorem to_local_move (T : Pose R) (p : V3R) : to_local (move T) (g p) = to_local T p.
   Proof.
     unfold to_local. rewrite move_trans, move_rot, !mulTV_mulMM. unfold g, rigid.
-    rewrite !mulTV_add, !HR. vsimp; f_equal; ring.
+    rewrite !mulTV_add, !HR. apply to_local_shift.
   Qed.
 
   Theorem point_in_sphere_invariant (p c : V3R) (r : R) :
@@ -209,7 +219,7 @@ Section Move.
     unfold point_in_cone. rewrite col2_move, move_trans.
     replace (vadd (g (trans T)) (vscale (half * h)%o (mulMV Rg (col (rot T) 2))))
       with (g (vadd (trans T) (vscale (half * h)%o (col (rot T) 2))))
-      by (unfold g, rigid; rewrite mulMV_add, mulMV_scale; vsimp; f_equal; ring).
+      by (unfold g; rewrite <- mulMV_scale, rigid_add; reflexivity).
     unfold g. rewrite rigid_sub, is_rotation_dot by auto.
     rewrite <- mulMV_scale, <- mulMV_sub, sumsq_rot. reflexivity.
   Qed.
@@ -220,14 +230,14 @@ Section Move.
     unfold point_in_capsule. rewrite col2_move, move_trans.
     set (ax := col (rot T) 2). set (c := trans T). set (k := (half * h)%o).
     replace (vsub (g c) (vscale k (mulMV Rg ax))) with (g (vsub c (vscale k ax)))
-      by (unfold g, rigid; rewrite mulMV_sub, mulMV_scale; vsimp; f_equal; ring).
+      by (unfold g; rewrite <- mulMV_scale, rigid_sub_vec; reflexivity).
     replace (vadd (g c) (vscale k (mulMV Rg ax))) with (g (vadd c (vscale k ax)))
-      by (unfold g, rigid; rewrite mulMV_add, mulMV_scale; vsimp; f_equal; ring).
+      by (unfold g; rewrite <- mulMV_scale, rigid_add; reflexivity).
     unfold g. rewrite !rigid_sub, !is_rotation_dot by auto.
     set (s0 := vsub c (vscale k ax)). set (sd := vsub (vadd c (vscale k ax)) s0).
     set (tt := fmin (fmax (dot (vsub p s0) sd / dot sd sd)%o zero) one).
     replace (vadd (rigid Rg t s0) (vscale tt (mulMV Rg sd))) with (rigid Rg t (vadd s0 (vscale tt sd)))
-      by (unfold rigid; rewrite mulMV_add, mulMV_scale; vsimp; f_equal; ring).
+      by (rewrite <- mulMV_scale, rigid_add; reflexivity).
     rewrite rigid_sub, sumsq_rot. reflexivity.
   Qed.
 End Move.
@@ -238,7 +248,8 @@ Definition rotx90 : M3 R := M (V 1 0 0) (V 0 0 (-1)) (V 0 1 0).
 Lemma rotx90_rotation : is_rotation rotx90.
 Proof. intros v. unfold rotx90. vsimp. f_equal; ring. Qed.
 Theorem support_sphere_zero_direction_refuted :
-  exists (Rg : M3 R) (c : V3R) (r : R), is_rotation Rg /    support_sphere (mulMV Rg vzero) (rigid Rg vzero c) r <> rigid Rg vzero (support_sphere vzero c r).
+  exists (Rg : M3 R) (c : V3R) (r : R),
+    is_rotation Rg /\ support_sphere (mulMV Rg vzero) (rigid Rg vzero c) r <> rigid Rg vzero (support_sphere vzero c r).
 Proof.
   exists rotx90, vzero, 1. split; [apply rotx90_rotation|].
   unfold support_sphere.
@@ -249,6 +260,6 @@ Proof.
 Qed.
 
 Example support_equivariant_nonvacuous :
-  is_rotation rotx90 /  support_box (mulMV rotx90 (V 1 2 3)) (move rotx90 (V 5 6 7) (P ident (V 1 1 1))) (V 1 2 3)
+  is_rotation rotx90 /\ support_box (mulMV rotx90 (V 1 2 3)) (move rotx90 (V 5 6 7) (P ident (V 1 1 1))) (V 1 2 3)
   = rigid rotx90 (V 5 6 7) (support_box (V 1 2 3) (P ident (V 1 1 1)) (V 1 2 3)).
 Proof. split; [apply rotx90_rotation|]. apply support_box_equivariant. apply rotx90_rotation. Qed.
